@@ -30,7 +30,7 @@ from vt.envs.cvrp import CVRPAdapter
 # C06_cvrptw_checker_fixed_sound).  Flip together with the `fix:` commit.  (VERIF_CVRPTW_FIXED=1 overrides, for trying a
 # repaired scratch copy.)
 import os
-CHECKER_FIXED = os.environ.get("VERIF_CVRPTW_FIXED", "") == "1"
+CHECKER_FIXED = True   # /repo carries the two CVRPTW checker "fix:" commits (24c691c, d5b9545) since 2026-10-01
 
 MECH = {(15, 1): "checker-accepts-late-service(arrival-time-truncated-to-int)",
         (14, 1): "checker-rejects-feasible-solution(uses-batch-row-0-horizon)"}
